@@ -413,7 +413,8 @@ def dangling(facts, rep, vs, vidx, tb):
     in_loop_contains = [c for c in contains if c in blocks]
     rep.ob("C04.X", "skip-guard", bool(in_loop_contains),
            "the node loop consults useful_nodes.contains (%d site(s))" % len(in_loop_contains), d.loc(h))
-    rem = C.assume_call_results(d, [(lambda cn, ct, cbb: cbb in in_loop_contains, True)])
+    res_c = V.executable_under(facts, d, site_values={(d.id, c): ("b", True) for c in in_loop_contains})
+    rem = {(x, y) for x, y in C.edges(d) if (x, y) not in res_c.edges}
     # back edges = edges into header from inside the loop
     errs = C.error_exit_blocks(d)
     start = [s for s in d.succs(h) if s in blocks]
